@@ -10,8 +10,11 @@ import (
 	"github.com/go-i2p/common/certificate"
 	"github.com/go-i2p/common/data"
 	"github.com/go-i2p/common/key_certificate"
+	"github.com/go-i2p/common/lease_set2"
 	"github.com/go-i2p/common/offline_signature"
 	"github.com/go-i2p/common/signature"
+
+	"go.step.sm/crypto/x25519"
 
 	"verifharness/core"
 	"verifharness/gen"
@@ -435,6 +438,56 @@ func c04WellKnownOptions(c *core.Ctx) {
 		sort.SliceStable(m.Pairs, func(a, b int) bool { return string(m.Pairs[a].K) < string(m.Pairs[b].K) })
 		return m
 	}
+	// the decoder behind the encrypted leaseset: whatever an authentic ciphertext decrypts to - a
+	// well-formed LeaseSet2 of any shape (no leases, no keys, offline keys, reserved flags), a
+	// mutated one, arbitrary bytes, nothing - DecryptInnerData returns normally, and so do the
+	// methods of what it returns
+	c.Job("decrypt-inner", c.N(1500, 30000), func(i int, r *core.Rand) {
+		var plain []byte
+		class := ""
+		switch i % 5 {
+		case 0, 1:
+			m, _ := gen.LeaseSet2(r)
+			if i%10 == 0 {
+				m.Leases = nil
+			}
+			plain, class = m.Encode(), "wellformed"
+		case 2:
+			cs := gen.WellFormed("leaseset2", 0, r)
+			plain, class = gen.Mutate(r, cs, nil)
+			class = "mutated:" + class
+		case 3:
+			plain, class = r.Bytes(r.Pick(600)), "random"
+		default:
+			m, _ := gen.LeaseSet2(r)
+			e := m.Encode()
+			plain, class = e[:r.Pick(len(e)+1)], "truncated"
+		}
+		blob, priv, err := encryptForTest(r, plain)
+		if err != nil {
+			return
+		}
+		els, err := elsWith(blob)
+		if err != nil || els == nil {
+			c.Bucket("decrypt-inner/not-wrapped")
+			return
+		}
+		c.Eval(1)
+		var cookie [32]byte
+		var got *lease_set2.LeaseSet2
+		var derr error
+		panicked, _, _ := c.Call("encrypted_leaseset.EncryptedLeaseSet.DecryptInnerData", plain, func() { got, derr = els.DecryptInnerData(cookie[:], x25519.PrivateKey(priv)) })
+		if panicked {
+			return
+		}
+		c.OpResult("encrypted_leaseset.EncryptedLeaseSet.DecryptInnerData", derr == nil)
+		c.Nontrivial([]byte("decrypt-inner"), plain)
+		c.Bucket("decrypt-inner/" + classHead(class) + map[bool]string{true: "/value", false: "/error"}[derr == nil])
+		if derr == nil && got != nil {
+			c.Call("encrypted_leaseset.EncryptedLeaseSet.DecryptInnerData/methods", plain, func() { lib.Observe(got, lib.ObserveOpts{Depth: 1}) })
+		}
+	})
+
 	c.Job("well-known-options", c.N(3000, 60000), func(i int, r *core.Rand) {
 		var in []byte
 		var p *lib.Parser
